@@ -29,7 +29,8 @@ def witX (q : Val) : Ext := fun f args =>
     else if a < b then .ok (.list [.int 0, .record [("value", .bool false), ("report", .str "report"), ("__bool__", .bool false)]])
     else .raise "ValueError"
   | "FieldComparison(cpu_time=,name=,predicate=,report=,status=)", [_, n, _, _, .enum "FieldComparisonStatus" s] =>
-    .ok (.record [("name", n), ("status", .enum "FieldComparisonStatus" s), ("__bool__", .bool (s != "failed" && s != "error"))])
+    .ok (.record [("name", n), ("status", .enum "FieldComparisonStatus" s), ("is_failure", .bool (!(s != "failed" && s != "error"))),
+                  ("__bool__", .bool (s != "failed" && s != "error"))])
   | "call", [.str "cb", c] => .ok (.list [.str "called", c])
   | ".equals", [.int a, .int b] => .ok (predResultVal (a == b))
   | "find_matches_by_name", [_, _] => .ok q
